@@ -21,3 +21,9 @@ const (
 	VerifQtMaxLevel    = qtMaxLevel
 	VerifEpsilon       = epsilon
 )
+
+// VerifLineIntersect is a read-only export of the quadtree clipper (Box2.lineIntersect).
+func VerifLineIntersect(a Box2, l *Line2) *Line2 { return a.lineIntersect(l) }
+
+// VerifQuads returns the four sub-boxes of a quadtree node in child order (sw, se, nw, ne).
+func VerifQuads(a Box2) [4]Box2 { return [4]Box2{a.quad0(), a.quad1(), a.quad2(), a.quad3()} }
